@@ -279,8 +279,21 @@ def render_input(case, power_file="power.csv"):
     return "\n".join(L) + "\n"
 
 
+def ordered_rows(rows, order, seed=0):
+    """the same labelled rows written in another order: every row carries its assembly, component, axial cell and item index"""
+    rows = list(rows)
+    if order == 'item-major':
+        rows.sort(key=lambda r: (r[0], r[1], r[4], r[2]))
+    elif order == 'cell-reversed':
+        rows.sort(key=lambda r: (r[0], r[1], -r[2], r[4]))
+    elif order == 'shuffled':
+        import random as _random
+        _random.Random(seed).shuffle(rows)
+    return rows
+
+
 def render_power(case):
-    rows = case['power']['rows']
+    rows = ordered_rows(case['power']['rows'], case['power'].get('row_order'), case['power'].get('row_seed', 0))
     return "\n".join(",".join(repr(float(v)) if i > 1 and i != 4 else str(int(v)) for i, v in enumerate(r))
                      for r in rows) + "\n"
 
